@@ -425,27 +425,62 @@ _TRIG = {}
 PI = z3.Real("PI")
 
 
-def trig(name, x):
-    """uninterpreted transcendental function applied to a real term; axioms are added by `trig_axioms`"""
+def _tf(name):
     if name not in _TRIG:
-        _TRIG[name] = z3.Function(name.upper(), z3.RealSort(), z3.RealSort())
+        if name == "arctan2":
+            _TRIG[name] = z3.Function("ARCTAN2", z3.RealSort(), z3.RealSort(), z3.RealSort())
+        else:
+            _TRIG[name] = z3.Function(name.upper(), z3.RealSort(), z3.RealSort())
+    return _TRIG[name]
+
+
+def trig(name, x, y=None):
+    """uninterpreted transcendental function applied to real term(s); ground axiom instances are added per argument:
+    sin/cos: Pythagoras, range, parity, values at 0; arccos/arcsin: range, monotonicity against earlier arguments, value at
+    0/1, inverse of cos/sin on the principal range; arctan2: arctan2(k sin t, k cos t) = t for k > 0, -PI < t <= PI."""
     e = eng()
     zz = to_real(x).z if not isinstance(x, z3.ExprRef) else x
-    t = _TRIG[name](zz)
+    if "pi" not in e.ghost:
+        e.ghost["pi"] = True
+        e.pc.append(z3.And(PI > z3.RealVal("3.14159"), PI < z3.RealVal("3.1416")))
     reg = e.ghost.setdefault("trig_terms", {})
     reg.setdefault(name, [])
+    if name == "arctan2":
+        yy = zz
+        xx = to_real(y).z if not isinstance(y, z3.ExprRef) else y
+        t = _tf("arctan2")(yy, xx)
+        if not any(a[0].eq(yy) and a[1].eq(xx) for a in reg[name]):
+            reg[name].append((yy, xx))
+            e.pc.append(z3.And(t > -PI, t <= PI))
+            e.ghost.setdefault("trig_calls", []).append(("arctan2", yy, xx))
+        return SReal(t)
+    f = _tf(name)
+    t = f(zz)
     if not any(a.eq(zz) for a in reg[name]):
-        # monotonicity / range facts against every earlier argument of the same function (ground instances)
-        for a in reg[name]:
-            fa = _TRIG[name](a)
+        if name in ("sin", "cos"):
+            S_, C_ = _tf("sin"), _tf("cos")
+            e.pc.append(S_(zz) * S_(zz) + C_(zz) * C_(zz) == 1)
+            e.pc.append(z3.And(S_(zz) >= -1, S_(zz) <= 1, C_(zz) >= -1, C_(zz) <= 1))
+            e.pc.append(z3.And(S_(-zz) == -S_(zz), C_(-zz) == C_(zz)))
+            e.pc.append(z3.And(S_(z3.RealVal(0)) == 0, C_(z3.RealVal(0)) == 1))
+            reg.setdefault("sin", []).append(zz)
+            reg.setdefault("cos", []).append(zz)
+        elif name in ("arccos", "arcsin"):
+            for a in reg[name]:
+                fa = f(a)
+                dom = z3.And(a >= -1, a <= 1, zz >= -1, zz <= 1)
+                if name == "arccos":
+                    e.pc.append(z3.Implies(dom, z3.And((a < zz) == (fa > t), (a == zz) == (fa == t))))
+                else:
+                    e.pc.append(z3.Implies(dom, z3.And((a < zz) == (fa < t), (a == zz) == (fa == t))))
             if name == "arccos":
-                e.pc.append(z3.Implies(z3.And(a >= -1, a <= 1, zz >= -1, zz <= 1), z3.And((a < zz) == (fa > t), (a == zz) == (fa == t))))
-        if name == "arccos":
-            e.pc.append(z3.Implies(z3.And(zz >= -1, zz <= 1), z3.And(t >= 0, t <= PI, (zz == 1) == (t == 0))))
-        if "pi" not in e.ghost:
-            e.ghost["pi"] = True
-            e.pc.append(z3.And(PI > z3.RealVal("3.14159"), PI < z3.RealVal("3.1416")))
-        reg[name].append(zz)
+                e.pc.append(z3.Implies(z3.And(zz >= -1, zz <= 1), z3.And(t >= 0, t <= PI, (zz == 1) == (t == 0))))
+            else:
+                e.pc.append(z3.Implies(z3.And(zz >= -1, zz <= 1), z3.And(t >= -PI / 2, t <= PI / 2, (zz == 0) == (t == 0), (zz >= 0) == (t >= 0))))
+            reg[name].append(zz)
+            e.ghost.setdefault("trig_calls", []).append((name, zz))
+        else:
+            reg[name].append(zz)
     return SReal(t)
 
 
@@ -455,8 +490,15 @@ def _sreal_method(name):
             return SReal(to_real(self).z * 180 / PI)
         if name == "radians":
             return SReal(to_real(self).z * PI / 180)
+        if name == "sqrt":
+            from . import npshim
+            return npshim.NumpyShim().sqrt(self)
         return trig(name, self)
     return m
+
+
+def _arctan2_method(self, other):
+    return trig("arctan2", self, other)
 
 
 def trunc_int(x):
@@ -823,3 +865,4 @@ for _n in ("arccos", "arcsin", "cos", "sin", "sqrt", "degrees", "radians", "deg2
     _real = {"deg2rad": "radians", "rad2deg": "degrees"}.get(_n, _n)
     setattr(SReal, _n, _sreal_method(_real))
     setattr(SInt, _n, _sreal_method(_real))
+SReal.arctan2 = _arctan2_method
